@@ -31,25 +31,49 @@ func OrdUnread(p *load.Program) *report.RuleResult {
 		return r
 	}
 	names, _ := namedConstsOf(p, "token")
-	// ReadValue: reader -> kinds
-	ef := ssau.TrackEnum(rv, matchPath(ssau.Path(rv.Params[1])))
-	groups := map[string][]string{}
+	// ReadValue (or the helper it hands the token kind to): reader -> kinds
+	dispatchIn := func(g *ssa.Function) map[string][]string {
+		out := map[string][]string{}
+		var tokParam *ssa.Parameter
+		for _, pa := range g.Params {
+			if ssau.TypeName(pa.Type()) == "token" {
+				tokParam = pa
+			}
+		}
+		if tokParam == nil {
+			return out
+		}
+		ef := ssau.TrackEnum(g, matchPath(ssau.Path(tokParam)))
+		for _, b := range g.Blocks {
+			for _, in := range b.Instrs {
+				c, ok := in.(*ssa.Call)
+				if !ok {
+					continue
+				}
+				f := c.Call.StaticCallee()
+				if f == nil || recvTypeName(f) != "tokenizer" {
+					continue
+				}
+				vs, _ := ef.At(c)
+				if !vs.Known() {
+					continue
+				}
+				for _, k := range vs.Values() {
+					out[f.Name()] = append(out[f.Name()], k)
+				}
+			}
+		}
+		return out
+	}
+	groups := dispatchIn(rv)
 	for _, b := range rv.Blocks {
 		for _, in := range b.Instrs {
-			c, ok := in.(*ssa.Call)
-			if !ok {
-				continue
-			}
-			f := c.Call.StaticCallee()
-			if f == nil || recvTypeName(f) != "tokenizer" {
-				continue
-			}
-			vs, _ := ef.At(c)
-			if !vs.Known() {
-				continue
-			}
-			for _, k := range vs.Values() {
-				groups[f.Name()] = append(groups[f.Name()], k)
+			if c, ok := in.(ssa.CallInstruction); ok {
+				if g := c.Common().StaticCallee(); g != nil && g != rv && recvTypeName(g) == "tokenizer" && len(g.Blocks) > 0 {
+					if gg := dispatchIn(g); len(gg) > len(groups) {
+						groups = gg
+					}
+				}
 			}
 		}
 	}
@@ -1037,9 +1061,15 @@ func TabSkipArms(p *load.Program) *report.RuleResult {
 		}
 		return false
 	}
+	// what the container skipper uses, directly or through a case body extracted into a method of its own
 	have := map[*ssa.Function]bool{}
 	for _, h := range tokCallees(sc) {
 		have[h] = true
+		if h != sc {
+			for _, h2 := range tokCallees(h) {
+				have[h2] = true
+			}
+		}
 	}
 	n := 0
 	for _, top := range tokCallees(sv) {
